@@ -7,8 +7,9 @@
   `C1.Valid`, `SO3.sqn q ≠ 0`) and, for `exp`, the closed-form branch of the rotation part; each
   theorem is followed by a non-vacuity example.
 
-  One part of the property is FALSE on the unchanged code and its negation is proved here:
-  `angle_cw_range_fails_at_half_turn` (`angle_cw` at `(qz, qw) = (0, −1)` is `+π ∉ [−2π, 0]`).
+  History: on the pinned tree `angle_cw` at `(qz, qw) = (+0, −1)` was `+π ∉ [−2π, 0]` (and in floats
+  `angle_ccw` at `(−0, −1)` was `−π`); fixed in /repo by commit 38a157c, the model follows the fixed
+  code and `angle_cw_range_statement` is now a theorem without any hypothesis.
 -/
 import SmoothProofs.C17Angles
 import SmoothProofs.C17Lift
@@ -250,39 +251,29 @@ theorem isometry_glue :
 
 /-! ## angle(), angle_cw(), angle_ccw() -/
 
-/-- **angle_ranges**: `angle ∈ (−π, π]`, `angle_ccw ∈ [0, 2π]`, and — OFF the negative real axis —
-    `angle_cw ∈ [−2π, 0]`; the three are congruent modulo 2π for every `g`; on the unit circle
-    `(sin, cos)(angle g) = (qz, qw)`.  The hypothesis `¬(qz = 0 ∧ qw < 0)` is forced: see
-    `angle_cw_range_fails_at_half_turn`. -/
+/-- **angle_ranges**: `angle ∈ (−π, π]`, `angle_ccw ∈ [0, 2π]`, `angle_cw ∈ [−2π, 0]` for EVERY
+    coefficient vector (no hypothesis); the three are congruent modulo 2π; on the unit circle
+    `(sin, cos)(angle g) = (qz, qw)`. -/
 theorem angle_ranges (g : Vec ℝ 2) :
     (-Real.pi < Conv.angle g ∧ Conv.angle g ≤ Real.pi) ∧
     (0 ≤ Conv.angle_ccw g ∧ Conv.angle_ccw g ≤ 2 * Real.pi) ∧
-    (¬ (g 0 = 0 ∧ g 1 < 0) → -(2 * Real.pi) ≤ Conv.angle_cw g ∧ Conv.angle_cw g ≤ 0) ∧
+    (-(2 * Real.pi) ≤ Conv.angle_cw g ∧ Conv.angle_cw g ≤ 0) ∧
     (Conv.angle_cw g = Conv.angle g ∨ Conv.angle_cw g = Conv.angle g - 2 * Real.pi) ∧
     (Conv.angle_ccw g = Conv.angle g ∨ Conv.angle_ccw g = Conv.angle g + 2 * Real.pi) ∧
     (SO2.Unit g → Real.sin (Conv.angle g) = g 0 ∧ Real.cos (Conv.angle g) = g 1) :=
   ⟨C17P.angle_range g, C17P.angle_ccw_range g, C17P.angle_cw_range g, C17P.angle_cw_congr g,
     C17P.angle_ccw_congr g, fun h => ⟨C17P.sin_angle g h, C17P.cos_angle g h⟩⟩
 
-/-- non-vacuity of the `angle_cw` hypothesis: the quarter turn `(qz, qw) = (1, 0)` is off the cut -/
-example : ¬ ((mk2 1 0 : Vec ℝ 2) 0 = 0 ∧ (mk2 1 0 : Vec ℝ 2) 1 < 0) := by
-  simp [mk2, Vec.of]
+/-- the property as written: `angle_cw ∈ [−2π, 0]` for every element of SO2 -/
+theorem angle_cw_range_statement :
+    ∀ g : Vec ℝ 2, SO2.Unit g → -(2 * Real.pi) ≤ Conv.angle_cw g ∧ Conv.angle_cw g ≤ 0 :=
+  fun g _ => C17P.angle_cw_range g
 
-/-- the full property as written (`angle_cw ∈ [−2π, 0]` for every element) — FALSE, see below -/
-def angle_cw_range_statement : Prop :=
-  ∀ g : Vec ℝ 2, SO2.Unit g → -(2 * Real.pi) ≤ Conv.angle_cw g ∧ Conv.angle_cw g ≤ 0
-
-/-- **NEGATION with a witness**: at the half turn `(qz, qw) = (0, −1)` — a unit element —
-    `angle_cw` takes the branch `y ≤ 0` and returns `atan2(0, −1) = +π`, outside `[−2π, 0]`; the same
-    on the whole negative real axis.  Replayed on the implementation:
-    `SO2d(0.0, −1.0).angle_cw() = 3.14159…` (and in floats `SO2d(−0.0, −1.0).angle_ccw() = −π`). -/
-theorem angle_cw_range_fails_at_half_turn :
-    SO2.Unit C17P.halfTurn ∧ Conv.angle_cw C17P.halfTurn = Real.pi ∧ ¬ (Conv.angle_cw C17P.halfTurn ≤ 0) ∧
-    (∀ g : Vec ℝ 2, g 0 = 0 → g 1 < 0 → ¬ (Conv.angle_cw g ≤ 0)) ∧
-    ¬ angle_cw_range_statement := by
-  have hu : SO2.Unit C17P.halfTurn := by simp [SO2.Unit, C17P.halfTurn, mk2, Vec.of]
-  have hn : ¬ (Conv.angle_cw C17P.halfTurn ≤ 0) := by
-    rw [C17P.angle_cw_halfTurn]; exact not_le.2 Real.pi_pos
-  exact ⟨hu, C17P.angle_cw_halfTurn, hn, C17P.angle_cw_range_fails, fun hs => hn (hs _ hu).2⟩
+/-- the former defect point, the half turn `(qz, qw) = (0, −1)` (a unit element): `angle = π`,
+    `angle_cw = −π`, `angle_ccw = π` — all inside their ranges -/
+theorem angle_at_half_turn :
+    SO2.Unit C17P.halfTurn ∧ Conv.angle_cw C17P.halfTurn = -Real.pi ∧ Conv.angle_ccw C17P.halfTurn = Real.pi := by
+  refine ⟨?_, C17P.angle_cw_halfTurn, C17P.angle_ccw_halfTurn⟩
+  simp [SO2.Unit, C17P.halfTurn, mk2, Vec.of]
 
 end C17
